@@ -5,4 +5,4 @@ Require Import ExtrOcamlBasic.
 Separate Extraction
   st trak sentry scfg avcc hvcc dac3 ec3sub dec3 mchild mhdr outcome op desc
   run step empty_init mdia_children mhdr_name get_language set_language create_hdlr
-  moov_add_trak elng_payload elng_decode trak_shape.
+  moov_add_trak elng_payload elng_decode trak_shape stpp_payload stpp_decode.
